@@ -201,7 +201,7 @@ def c12(chk):
         cmdv = pinned(lf, byte_leaf(10))
         p9 = bits_of(in_term('packet', 9))
         items.append(('cell', mk_bv(8, tuple(p9[0:5]) + (0, 0, 0))))       # 9: Rq 0, D 0, rsvd 0, instance of the request
-        items.append(('cell', K(8, cmdv if cmdv is not None else 0xFF)))  # 10: command being answered
+        items.append(('cell', in_term('packet', 10)))                       # 10: the command code of the request
         names = ['dest address', 'command code', 'byte count', 'source address', 'header version', 'destination EID',
                  'source EID', 'SOM/EOM/seq flags', 'message type', 'control header (Rq/D/instance)', 'command code']
         for i, it in enumerate(items):
@@ -209,6 +209,12 @@ def c12(chk):
             chk.evals()
             if i == 7:
                 ok = a is not None and tuple(bits_of(simp(know, a))[4:8]) == (0, 0, 1, 1)
+            elif i == 0:
+                # the requester's SMBus address: bits 7..1 of the request's byte 3, or (same requester, by the property's
+                # precondition) the low seven bits of its source endpoint ID
+                p3 = bits_of(in_term('packet', 3))
+                alt = mk_bv(8, (0,) + tuple(p3[1:8]))
+                ok = a is not None and (eq_under(know, a, it[1]) is True or eq_under(know, a, alt) is True)
             else:
                 ok = a is not None and eq_under(know, a, it[1]) is True
             got = show_term(simp(know, a)) if a is not None else 'nothing'
